@@ -5,6 +5,7 @@ From Coq Require Import Permutation.
 From Verif Require Import lib.Wire c05.ModelLimiter c05.SpecLimiter c05.Proofs_Limiter gen.Consts_c05.
 From Verif Require Import c05.ModelWorker c05.SpecWorker c05.Proofs_Worker.
 From Verif Require Import c05.ModelRanker c05.SpecRanker c05.Proofs_Ranker.
+From Verif Require Import c05.Proofs_LimiterMon c05.Proofs_WorkerMon.
 Import ListNotations.
 Local Open Scope Z_scope.
 
@@ -53,6 +54,21 @@ Theorem c05_default_caps_wf : 1 <= ConcurrentFdDials /\ 1 <= DefaultPerPeerRateL
 Proof. vm_compute. split; discriminate. Qed.
 Print Assumptions c05_default_caps_wf.
 
+(* HEADLINE (limiter): the very monitor that judges the implementation's limiter
+   traces (SpecLimiter.monitor_lim: caps on counters and on dialFunc invocations, no
+   residue when nothing is in flight, every live job attempted) accepts the trace of
+   the model for EVERY sequence of harness stimuli (AddDialJob / cancel / clear /
+   return, each followed by the started goroutines running to their parking point).
+   _partial: the second function applied to implementation traces, once_lim ("a job's
+   dialFunc is invoked at most once"), is NOT covered: it needs unique job identities
+   and a disjointness invariant over the queues that the model does not carry (the
+   model never duplicates a job - tokens_balanced counts them - but identities are not
+   tracked); at the level the property speaks about it is c05_addr_handed_once. *)
+Theorem c05_limiter_monitor_holds_partial : forall fdl ppl xs, 1 <= fdl -> 1 <= ppl ->
+  monitor_lim fdl ppl (mkLmon [] []) 0 (lim_trace (init_lim fdl ppl) xs) = [].
+Proof. exact monitor_lim_holds_l. Qed.
+Print Assumptions c05_limiter_monitor_holds_partial.
+
 (* ---- dial worker loop ------------------------------------------------------------
    For EVERY finite sequence of loop iterations (request / dial timer / dial update /
    reqch closed) in any order, with every answer the environment can give inside a
@@ -99,6 +115,26 @@ Theorem c05_all_eligible_attempted : forall evs, wf_run init_w evs ->
   w_dq s = [] -> forall a, In a (w_asked s) -> In a (w_dials s) \/ In a (w_refused s).
 Proof. exact all_eligible_attempted_l. Qed.
 Print Assumptions c05_all_eligible_attempted.
+
+(* HEADLINE (worker): the very monitor that judges the implementation's worker traces
+   (SpecWorker.monitor_w), run on the trace of the model for EVERY sequence of
+   well-formed harness stimuli (requests with fresh ids and repetition-free rankings,
+   clock advances, dial updates for dials in flight, back-off entries, inbound
+   connections, close; every due timer fires after each), never reports clause 1
+   (request answered twice), 2 (address handed to a transport twice) or 4 (request
+   unanswered at quiescence).
+   _partial: clause 3 (a response is justified: a connection only when one exists or a
+   candidate address succeeded, an error only when every candidate failed or was
+   refused) and clause 5 (every candidate attempted at quiescence) are judged on the
+   implementation's traces only.  They need a coupling between the monitor's
+   environment bookkeeping (failed / ever-in-back-off / connection flags) and the
+   statuses in trackedDials that is not built; the state-level counterpart of clause 5
+   is c05_all_eligible_attempted, clause 3 has no state-level counterpart here. *)
+Theorem c05_worker_monitor_holds_partial : forall xs, wf_stims (init_env, init_w) xs ->
+  forall d, monitor_w wmon0 0 (wtrace (init_env, init_w) xs) = d ->
+  d = [] \/ exists j c, d = [ERR_PROPERTY; j; c] /\ (c = 3 \/ c = 5).
+Proof. exact monitor_w_holds_partial_l. Qed.
+Print Assumptions c05_worker_monitor_holds_partial.
 
 (* ---- DefaultDialRanker ---------------------------------------------------------------
    for every sort.Slice that permutes its input, every address list and every
@@ -171,3 +207,15 @@ Proof. vm_compute. discriminate. Qed.
 Example ranker_monitor_rejects_dropped_address :
   monitor_r_case [2; 1; 0; 0; 1; 0; 0; 1; 1048577;  2; 0; 0; 1; 0; 1; 0; 262145;  1; 2; 0] <> [].
 Proof. vm_compute. discriminate. Qed.
+
+(* the hypotheses of the worker headline are satisfiable by a non-trivial run, and on it
+   the monitor accepts *)
+Example worker_headline_nonvacuous :
+  let xs := [TReq 1 false false (Some [(10, 0); (11, 250000000)]); TAdvance 250000000;
+             TRes 10 0 false; TReq 2 true false (Some [(11, 0); (12, 0)]); TRes 11 0 false; TRes 12 0 false] in
+  wf_stims (init_env, init_w) xs /\ monitor_w wmon0 0 (wtrace (init_env, init_w) xs) = [].
+Proof.
+  vm_compute. repeat split; try tauto;
+    repeat (constructor; [cbn; intuition discriminate|]); try constructor; auto;
+    try (intros [H|[]]; discriminate); try (intros []).
+Qed.
